@@ -28,6 +28,7 @@ type Target struct {
 }
 
 type InFile struct {
+	LinkTo  string `json:"link_to,omitempty"` // kinds hardlink / symlink-to: the other input file this name is a link to
 	Path    string `json:"path"`
 	Content string `json:"content"`
 	Mode    uint32 `json:"mode,omitempty"`
@@ -75,6 +76,8 @@ type World struct {
 	// directory: in its ancestors, in $HOME and below $HOME/.config (a colleague's defaults file, another
 	// project's container): same inputs, same flags - nothing may change
 	StrayConfigs bool `json:"stray_configs,omitempty"`
+	// OutLocked: another process holds an advisory lock (flock) on the existing -o file for the whole run
+	OutLocked bool `json:"out_locked,omitempty"`
 	// ChainDeep: see OutKind "symlink-chain"
 	ChainDeep bool `json:"chain_deep,omitempty"`
 	// Peers: further build commands that run concurrently with this one, as processes of their own, in
@@ -156,7 +159,8 @@ type Result struct {
 	InputsChanged []string                   `json:"inputs_changed,omitempty"`
 	DurMs         float64                    `json:"dur_ms"`
 	SimMs         int64                      `json:"sim_ms,omitempty"` // simulated time that passed during the run (clock reads, sleeps, operation latencies)
-	Race          string                     `json:"race,omitempty"` // race detector report that appeared during this run (race builds only)
+	Killed        string                     `json:"killed,omitempty"` // the signal that killed the simulated process at the faulted operation
+	Race          string                     `json:"race,omitempty"`   // race detector report that appeared during this run (race builds only)
 	// concurrent executions only: the peers' results and the order in which the processes were given their turns
 	Peers []*Result `json:"peers,omitempty"`
 	Turns string    `json:"turns,omitempty"`
@@ -389,6 +393,13 @@ func Exec1(t Target) {
 	os.Stdout.Write(b)
 }
 
+func lockedPaths(w *World) []string {
+	if w.OutLocked {
+		return []string{w.Out}
+	}
+	return nil
+}
+
 // zoneFor is the simulated machine's zone database: what time.Local is in a process started with
 // this $TZ (unset or unknown names: UTC, as on a machine whose /etc/localtime is UTC).
 func zoneFor(tz string) *time.Location {
@@ -499,6 +510,15 @@ func execPhase(t Target, w *World, top string, phase int) *Result {
 			must(os.Symlink("nowhere-to-be-found.yaml", inPath(f.Path)))
 		case "fifo":
 			must(syscall.Mkfifo(inPath(f.Path), 0644))
+		case "link-loop":
+			other := inPath(f.Path) + ".peer"
+			must(os.Symlink(filepath.Base(other), inPath(f.Path)))
+			must(os.Symlink(filepath.Base(f.Path), other))
+		case "link-through-file":
+			must(os.WriteFile(inPath(f.Path)+".plain", []byte("x"), 0644))
+			must(os.Symlink(filepath.Base(f.Path)+".plain/inner.yaml", inPath(f.Path)))
+		case "hardlink", "symlink-to":
+			// second pass: the other name must exist first
 		case "link":
 			// the file is a symbolic link to a regular file kept outside the working directory (a linked
 			// fragment, a sandboxed build's input farm): reading it gives the same bytes
@@ -510,6 +530,16 @@ func execPhase(t Target, w *World, top string, phase int) *Result {
 			must(os.Symlink(target, inPath(f.Path)))
 		default:
 			must(os.WriteFile(inPath(f.Path), []byte(f.Content), mode))
+		}
+	}
+	for _, f := range files {
+		switch f.Kind {
+		case "hardlink":
+			must(os.Link(inPath(f.LinkTo), inPath(f.Path)))
+		case "symlink-to":
+			rel, err := filepath.Rel(filepath.Dir(inPath(f.Path)), inPath(f.LinkTo))
+			must(err)
+			must(os.Symlink(rel, inPath(f.Path)))
 		}
 	}
 	// the inputs were written long ago, whatever is at -o is more recent (as after any earlier build)
@@ -637,7 +667,7 @@ func execPhase(t Target, w *World, top string, phase int) *Result {
 	ctl := &simrt.Ctl{
 		MapSeed: w.MapSeed, ListSeed: w.ListSeed, Clock: time.Unix(w.Clock, 0).UTC(), RandSeed: w.RandSeed,
 		Pid: w.Pid, Host: w.Host, Faults: append([]simrt.Fault{}, w.Faults...),
-		AltSeed: w.AltSeed, AltAll: w.AltAll, SlowSeed: w.SlowSeed, Root: top, Root2: inRoot, StdoutFailFrom: w.StdoutFailFrom,
+		AltSeed: w.AltSeed, AltAll: w.AltAll, SlowSeed: w.SlowSeed, LockedPaths: lockedPaths(w), Root: top, Root2: inRoot, StdoutFailFrom: w.StdoutFailFrom,
 	}
 	if len(w.AltSites) > 0 {
 		ctl.AltSites = map[string]bool{}
@@ -698,6 +728,7 @@ func execPhase(t Target, w *World, top string, phase int) *Result {
 	res.Sites = ctl.Sites
 	res.WorldUse = ctl.WorldUse
 	res.EnvReads = ctl.EnvReads
+	res.Killed = ctl.Killed
 	res.Out = observe(w.Out)
 	if isDev, replaced, content := ctl.VDevState(w.Out); isDev {
 		// virtual device: the real node is never touched; report what the program did to it
